@@ -332,6 +332,40 @@ def check_special(ctx, case):
             ctx.violation(f"Model.train(learn_every={case['learn_every']}, force_teachers={case['force_teachers']}), sender {case['position']}: at step {t} the receiver read "
                           f"{seen[t]} as feedback, expected the sender's output of step {t - 1} = {want[t]} (read {seen.tolist()}, sender emitted {sent.tolist()})",
                           case, obligation=ob)
+    elif case["kind"] == "fit_run_fit_reset":
+        # fit, run (the readout now emits something), fit again, then a run from reset states (or from given states): at
+        # its first step the receiver must read the sender's state as installed - nothing left over from the fits
+        def run_case():
+            res = Reservoir(W=np.zeros((2, 2)), Win=np.zeros((2, 1)), Wfb=np.array([[1.], [0.]]), bias=np.zeros((2, 1)), activation="identity")
+            ro = Ridge(1, ridge=1e-6)
+            res <<= ro
+            m = res >> ro
+            T = case["T"]
+            X = np.ones((T, 1))
+            Y = np.full((T, 1), float(case["level"]))
+            m.fit(X, Y)
+            m.run(X[:3])
+            m.fit(X, Y + 1.0)
+            how = case["how"]
+            if how == "run_reset":
+                out = m.run(X[:2], reset=True, return_states=[res.name])
+                want = 0.0
+            elif how == "model_reset":
+                m.reset()
+                out = m.run(X[:2], return_states=[res.name])
+                want = 0.0
+            else:
+                out = m.run(X[:2], from_state={ro.name: np.array([[float(case["v0"])]])}, return_states=[res.name])
+                want = float(case["v0"])
+            return float(np.asarray(out[res.name])[0, 0]), want
+        r = common.exc_class(run_case)
+        if r[0] != "ok":
+            ctx.violation(f"fit / run / fit / run({case['how']}) on a model with feedback raised {r[1]}", case, obligation=ob)
+            return
+        seen, want = r[1]
+        if seen != want:
+            ctx.violation(f"after fit, run, fit: a run started with {case['how']} makes the receiver read {seen} as feedback at its first step, expected {want} "
+                          "(the sender's state as installed; something of the earlier operations was left in the feedback path)", case, obligation=ob)
     elif case["kind"] == "k10_list_senders":
         def run_case():
             r = Reservoir(W=np.zeros((4, 4)), Win=np.zeros((4, 2)), bias=np.zeros((4, 1)), activation="identity", Wfb=lambda *s, **k: np.ones(s))
@@ -357,7 +391,7 @@ def check_special(ctx, case):
 
 
 def check_case(ctx, case):
-    if case.get("kind") in ("k1_submodel_sender", "k10_list_senders", "call_options", "train_learn_every"):
+    if case.get("kind") in ("k1_submodel_sender", "k10_list_senders", "call_options", "train_learn_every", "fit_run_fit_reset"):
         return check_special(ctx, case)
     common.quiet()
     _BUFS.clear()
@@ -498,6 +532,8 @@ def run(ctx):
         check_case(ctx, gen_case(g))
     for _ in range(ctx.n(12, 120)):
         check_case(ctx, {"kind": "call_options", "a": g.randint(1, 9), "b": g.randint(10, 19), "c": g.randint(20, 29), "v0": g.choice([42, -7, 0.5, 3])})
+        check_case(ctx, {"kind": "fit_run_fit_reset", "T": g.randint(5, 9), "level": g.choice([7, -3, 2.5]), "how": g.choice(["run_reset", "model_reset", "from_state"]),
+                         "v0": g.choice([42, -5, 0.5])})
         check_case(ctx, {"kind": "train_learn_every", "rule": g.choice(["lms", "rls"]), "position": g.choice(["upstream", "downstream", "side"]),
                          "T": g.randint(4, 9), "scale": g.choice([1.0, 0.5, 2.0]), "learn_every": g.choice([1, 2, 3, 4]),
                          "force_teachers": g.chance(0.5)})
